@@ -1181,7 +1181,6 @@ func blockEstablishes(b *ssa.BasicBlock, g Guard) bool {
 	return false
 }
 
-
 // predEstablishes: the branch condition is (the negation of) a call to a first-party
 // boolean helper, and inside that helper every return yielding the truth value taken on
 // this edge lies behind an edge establishing g (values of the helper are mapped to the
